@@ -60,6 +60,15 @@ func (e *SpecEnv) force(v *SVal) *SVal {
 				e.fr.x.assumeRange(l.Term, l.T)
 			}
 		}
+		// ... and an allocated object holds no references to objects not yet allocated
+		if b := v.Loc.Base; b != "" && (v.Loc.Kind == LRef || v.Loc.Kind == LElem) && !hasBound(b) {
+			al := e.fr.x.heapGet(e.heap, allocName, "Int")
+			for _, t := range refTerms(r) {
+				if !hasBound(t) {
+					e.fr.x.em.Assert(sImp(sLe(b, al), sLe(t, al)))
+				}
+			}
+		}
 		if e.sumCtx != nil {
 			r = e.sumCtx.lift(e, r)
 		}
@@ -531,10 +540,10 @@ func (e *SpecEnv) index(v *SVal, idx *SVal) *SVal {
 }
 
 func (e *SpecEnv) keyTerm(k *SVal) string {
-	if k.Term == "" {
+	if k.Term == "" && isLeaf(k.T) {
 		sfail("map key without term")
 	}
-	return k.Term
+	return e.fr.keyTerm(k)
 }
 
 func (e *SpecEnv) sliceExpr(n *Node) *SVal {
@@ -685,11 +694,11 @@ func (e *SpecEnv) callExpr(n *Node) *SVal {
 		}
 		x.nFrames++
 		bv := sym(fmt.Sprintf("%s!q%d", args[0].Name, x.nFrames))
-		b := fr.evalBool(args[2], e.with(args[0].Name, leaf(mt.Key(), bv)))
+		b := fr.evalBool(args[2], e.with(args[0].Name, fr.keyVal(mt.Key(), bv)))
 		if name == "forallkey" {
-			return boolVal("(forall ((" + bv + " " + sortOf(mt.Key()) + ")) " + b + ")")
+			return boolVal("(forall ((" + bv + " " + x.keySort(mt.Key()) + ")) " + b + ")")
 		}
-		return boolVal("(exists ((" + bv + " " + sortOf(mt.Key()) + ")) " + b + ")")
+		return boolVal("(exists ((" + bv + " " + x.keySort(mt.Key()) + ")) " + b + ")")
 	case "sum":
 		return e.sum(args)
 	case "min", "max":
@@ -972,19 +981,15 @@ func (e *SpecEnv) pureCall(key string, p *types.Package, name string, recv *SVal
 		vals = append(vals, e.force(e.eval(a)))
 	}
 	// coerce spec ints to parameter types
-	var sorts, terms []string
 	for i, v := range vals {
 		if i < len(fn.Params) && v.T == specIntType {
-			v = leaf(fn.Params[i].Type(), v.Term)
+			vals[i] = leaf(fn.Params[i].Type(), v.Term)
 		}
 		if v.isNilLit() && i < len(fn.Params) {
-			v = zeroVal(fn.Params[i].Type())
-		}
-		for _, l := range fr.pureArgLeaves2(v, e.heap) {
-			sorts = append(sorts, l[0])
-			terms = append(terms, l[1])
+			vals[i] = zeroVal(fn.Params[i].Type())
 		}
 	}
+	sorts, terms := fr.pureInputs(c, fn, vals, e.heap)
 	var rt types.Type = fn.Signature.Results()
 	if fn.Signature.Results().Len() == 1 {
 		rt = fn.Signature.Results().At(0).Type()
@@ -1138,7 +1143,9 @@ func (e *SpecEnv) quant(kind string, args []*Node) *SVal {
 			g := sAnd(sLe(lo, t), sLt(t, hi))
 			bi := e.fr.evalBool(body, m)
 			if kind == "forall" {
-				insts = append(insts, sImp(g, bi))
+				// (hint ...): kept where the clause is assumed, dropped ("true") where it is
+				// the goal: there the instance follows from the quantified conjunct anyway
+				insts = append(insts, "(hint "+sImp(g, bi)+")")
 			} else {
 				insts = append(insts, sAnd(g, bi))
 			}
@@ -1179,7 +1186,19 @@ func (fr *Frame) loopIndexTerms() []string {
 				continue
 			}
 			if phi.Comment == "rangeindex" {
-				out = append(out, sAdd(v.Term, "1"))
+				// a named constant, so that "(+ off idx)" matches the pattern "(+ off k)" of a
+				// quantified fact syntactically (the solvers flatten "(+ off (+ ri 1))")
+				t := sAdd(v.Term, "1")
+				if fr.x.idxConst == nil {
+					fr.x.idxConst = map[string]string{}
+				}
+				c, ok := fr.x.idxConst[t]
+				if !ok {
+					c = fr.x.em.Fresh("idx", "Int")
+					fr.x.em.Raw("(assert (= " + c + " " + t + "))")
+					fr.x.idxConst[t] = c
+				}
+				out = append(out, c)
 			}
 		}
 	}
